@@ -1,5 +1,6 @@
 import Cellml.Engine.Num
 import Cellml.Engine.Logger
+import Cellml.Engine.Equiv
 open Cellml
 
 /-- line-protocol loop: one answer per input line -/
@@ -29,6 +30,7 @@ def main (args : List String) : IO UInt32 := do
   let stdout ← IO.getStdout
   match args with
   | ["num"] => loop stdin stdout numLine; return 0
+  | ["equiv"] => loop stdin stdout Engine.Equiv.answer; return 0
   | ["logger"] => loopS stdin stdout Engine.Logger.stepLine ([] : Engine.Logger.Loggers); return 0
   | ["num-enum", n] =>
     let n := n.toNat!
